@@ -25,7 +25,7 @@ import ast
 import collections
 import copy
 
-from .model import walk_no_nested
+from .model import norm, walk_no_nested
 
 
 class InlineBlock(ast.stmt):
@@ -115,6 +115,8 @@ def pure_ref(e) -> bool:
     if isinstance(e, ast.Subscript):
         return pure_ref(e.value) and pure_ref(e.slice) and not isinstance(e.slice, ast.Slice)
     if isinstance(e, ast.Call) and isinstance(e.func, ast.Attribute) and e.func.attr == "get" and not e.args and not e.keywords:
+        if "queue" in norm(e.func.value).lower():
+            return False  # Queue.get() consumes: never a reference
         return pure_ref(e.func.value)
     return False
 
